@@ -191,9 +191,12 @@ class Case:
 def differential(cases, zdrv, workdir, files_env=None, timeout_s=20, sig_of=None, project=None):
     """cases: list of Case (op = 'OP args...').  Returns per-case records:
        {id, op, impl, model, prop(True/False/None), agree}"""
-    lines = ['%s %s' % (c.id, c.op) for c in cases]
+    # cases whose implementation result was obtained outside the harness (real CLI tools) carry it in meta['impl']
+    lines = ['%s %s' % (c.id, c.op) for c in cases if c.meta.get('impl') is None]
     t_a = now()
-    impl = run_sharded(zdrv, lines, workdir, 'impl', extra_args=[str(timeout_s)], env=files_env)
+    impl = run_sharded(zdrv, lines, workdir, 'impl', extra_args=[str(timeout_s)], env=files_env) if lines else {}
+    for c in cases:
+        if c.meta.get('impl') is not None: impl[c.id] = c.meta['impl']
     t_b = now()
     jl = []
     for c in cases:
